@@ -597,3 +597,11 @@ Proof.
     vm_compute. reflexivity.
   - eexists. eexists. split; [vm_compute; reflexivity|]. split; [vm_compute; reflexivity|]. split; vm_compute; reflexivity.
 Qed.
+
+(* ---------------------------------------------------------------- (4) the comparator by name, for token documents *)
+From V.proofs Require Import WrapTokP.
+Lemma by_name_esort_ok ind iel mll : esort_ok ind iel mll (Some by_name).
+Proof.
+  split; [intros a b H; unfold by_name in *; apply opt_cmp_consistent; exact H|].
+  intros a b Ha Hb. unfold by_name. rewrite !e_out_key by assumption. reflexivity.
+Qed.
